@@ -266,6 +266,24 @@ theorem progress_iff (todo : List Uuid) (items : List Obj) :
     simp only [decide_eq_true_eq] at this
     exact this hup
 
+/-- The per-uuid test of the code accepts a page iff its uuids are pairwise distinct and all still
+wanted. -/
+theorem accepts_iff (todo us : List Uuid) :
+    accepts todo us = true ↔ us.Nodup ∧ ∀ u ∈ us, u ∈ todo := by
+  induction us generalizing todo with
+  | nil => simp [accepts]
+  | cons a us ih =>
+    simp only [accepts, Bool.and_eq_true, decide_eq_true_eq, ih, List.nodup_cons, List.mem_cons,
+      forall_eq_or_imp, List.mem_filter]
+    constructor
+    · rintro ⟨ha, hnd, hall⟩
+      refine ⟨⟨?_, hnd⟩, ha, fun u hu => (hall u hu).1⟩
+      intro hmem
+      exact (hall a hmem).2 rfl
+    · rintro ⟨⟨hna, hnd⟩, ha, hall⟩
+      refine ⟨ha, hnd, fun u hu => ⟨hall u hu, ?_⟩⟩
+      intro he; subst he; exact hna hu
+
 @[simp] theorem push_pages (req : Opts) (resp : Resp) (items : List Obj) (r : CRes) :
     (r.push req resp items).pages = items :: r.pages := rfl
 @[simp] theorem push_log (req : Opts) (resp : Resp) (items : List Obj) (r : CRes) :
@@ -280,6 +298,8 @@ theorem loop_step (B : Backend) (ropts : Opts) (fuel : Nat) (todo : List Uuid) (
       | .error s => ⟨[], [((batchReq ropts todo), .error s)], .failed 502⟩
       | .page items =>
         if items = [] then ⟨[[]], [((batchReq ropts todo), .page [])], .done⟩
+        else if accepts todo (pageUuids items) = false then
+          ⟨[items], [((batchReq ropts todo), .page items)], .failed 502⟩
         else if (remaining todo items).length = todo.length then
           ⟨[items], [((batchReq ropts todo), .page items)], .failed 502⟩
         else (clusterLoop B ropts fuel (remaining todo items) (idx + 1)).push
@@ -312,12 +332,15 @@ theorem loop_terminates (B : Backend) (ropts : Opts) (fuel : Nat) (todo : List U
         by_cases hi : items = []
         · simp [hi]; omega
         · simp only [hi, if_false]
-          by_cases hp : (remaining todo items).length = todo.length
-          · simp [hp]; omega
-          · simp only [hp, if_false, push_stop, push_log, push_pages, List.length_cons]
-            have hle := remaining_length_le todo items
-            obtain ⟨h1, h2, h3⟩ := ih (remaining todo items) (idx + 1) (by omega)
-            exact ⟨h1, by omega, by omega⟩
+          by_cases ha : accepts todo (pageUuids items) = false
+          · simp [ha]; omega
+          · simp only [if_neg ha]
+            by_cases hp : (remaining todo items).length = todo.length
+            · simp [hp]; omega
+            · simp only [hp, if_false, push_stop, push_log, push_pages, List.length_cons]
+              have hle := remaining_length_le todo items
+              obtain ⟨h1, h2, h3⟩ := ih (remaining todo items) (idx + 1) (by omega)
+              exact ⟨h1, by omega, by omega⟩
 
 /-- More fuel than `|todo|` changes nothing. -/
 theorem loop_fuel_succ (B : Backend) (ropts : Opts) (fuel : Nat) (todo : List Uuid) (idx : Nat)
@@ -339,11 +362,14 @@ theorem loop_fuel_succ (B : Backend) (ropts : Opts) (fuel : Nat) (todo : List Uu
         by_cases hi : items = []
         · simp [hi]
         · simp only [hi, if_false]
-          by_cases hp : (remaining todo items).length = todo.length
-          · simp [hp]
-          · simp only [hp, if_false]
-            have hle := remaining_length_le todo items
-            rw [ih (remaining todo items) (idx + 1) (by omega)]
+          by_cases ha : accepts todo (pageUuids items) = false
+          · simp [ha]
+          · simp only [if_neg ha]
+            by_cases hp : (remaining todo items).length = todo.length
+            · simp [hp]
+            · simp only [hp, if_false]
+              have hle := remaining_length_le todo items
+              rw [ih (remaining todo items) (idx + 1) (by omega)]
 
 theorem loop_fuel_indep (B : Backend) (ropts : Opts) (fuel : Nat) (todo : List Uuid) (idx : Nat)
     (hf : todo.length ≤ fuel) :
